@@ -258,10 +258,15 @@ class PubWalk(object):
     def _drop_unsent_q0(self, a, before_conn=None):
         for rid in self.accepted[a]:
             ri = self.F.info[rid]
-            if before_conn is not None and ri.qos and rid not in self.sent and ri.conn is not before_conn:
-                # carried over into a clean session and never sent: about to be failed by the purge.  Its
-                # errback may not have run yet when a callback of an earlier one publishes again.
-                self.doomed.add(rid)
+            if before_conn is not None and ri.qos and ri.conn is not before_conn:
+                # carried over into a clean session: about to be failed by the purge.  Its errback may not
+                # have run yet when a callback of an earlier one publishes again; it no longer holds back
+                # anything nor occupies the window (C12 checks that it is really failed and never re-sent)
+                if rid not in self.sent:
+                    self.doomed.add(rid)
+                for lst in (self.await_ack[a], self.await_comp[a]):
+                    if rid in lst:
+                        lst.remove(rid)
             if ri.qos == 0 and rid not in self.sent:
                 if before_conn is None or ri.conn is not before_conn:
                     self.dead.add(rid)
